@@ -247,16 +247,28 @@ func objectItemPrefixBasedEditRange(remainingRange hcl.Range, fileBytes []byte, 
 		Start: hcl.Pos{
 			// TODO: Calculate Line+Column for multi-line keys?
 			Line:   remainingRange.Start.Line,
-			Column: remainingRange.Start.Column - len(rawPrefixBytes),
+			Column: remainingRange.Start.Column - columnsIn(rawPrefixBytes),
 			Byte:   remainingRange.Start.Byte - len(rawPrefixBytes),
 		},
 		End: hcl.Pos{
 			// TODO: Calculate Line+Column for multi-line values?
 			Line:   remainingRange.Start.Line,
-			Column: remainingRange.Start.Column + trimmedOffset,
+			Column: remainingRange.Start.Column + columnsIn(trimmedRightBytes),
 			Byte:   remainingRange.Start.Byte + trimmedOffset,
 		},
 	}
+}
+
+// columnsIn returns the number of columns (grapheme clusters, as HCL counts them)
+// which the given single-line bytes occupy
+func columnsIn(b []byte) int {
+	sc := hcl.NewRangeScanner(b, "", func(data []byte, atEOF bool) (int, []byte, error) {
+		return len(data), data, nil
+	})
+	if !sc.Scan() {
+		return 0
+	}
+	return sc.Range().End.Column - 1
 }
 
 func objectAttributesToCandidates(ctx context.Context, prefix string, attrs schema.ObjectAttributes, declared declaredAttributes, editRange hcl.Range) []lang.Candidate {
